@@ -1,3 +1,4 @@
 """Imports every rule module so that the rules register themselves."""
 import r_c08  # noqa: F401
 import r_bin  # noqa: F401
+import r_c01  # noqa: F401
